@@ -233,8 +233,10 @@ def body(ctx, case):
     if sched.nontrivial:
         labels.add("fakepool:permuted")
     labels.add(f"fakepool:calls={min(sched.calls, 3)}")
+    if sched.ordered_calls:
+        labels.add("fakepool:ordered-api")  # map/imap: the tasks still ran on pickled copies under the requested pool size
     labels.add(f"requested-procs:{case.get('num_procs', 3)}")
-    ctx.record(case, sched.nontrivial or sched.calls > 0, sorted(labels), "pool not used")
+    ctx.record(case, sched.nontrivial or sched.calls > 0 or sched.ordered_calls > 0, sorted(labels), "pool not used")
 
 
 def cnls_cases(ctx):
